@@ -557,9 +557,9 @@ func (pck *pebbleEngCheckpoint) Save(path string, notify chan struct{}) error {
 		return errDBEngClosed
 	}
 	if notify != nil {
-		time.AfterFunc(time.Millisecond*20, func() {
-			close(notify)
-		})
+		// the checkpoint has no frozen view before it is finished: entries
+		// written while it runs can be part of it, so the caller must wait
+		defer close(notify)
 	}
 	verifhook.Crash("ckpt.engine_begin")
 	return pck.pe.eng.Checkpoint(path)
